@@ -19,9 +19,11 @@ import (
 	"strings"
 	"sync"
 
+	"google.golang.org/protobuf/compiler/protogen"
 	"google.golang.org/protobuf/proto"
 	"google.golang.org/protobuf/reflect/protoreflect"
 	"google.golang.org/protobuf/types/descriptorpb"
+	"google.golang.org/protobuf/types/gofeaturespb"
 	"google.golang.org/protobuf/zverif/gencode"
 	"google.golang.org/protobuf/zverif/pbt"
 )
@@ -414,7 +416,9 @@ import (
 	"google.golang.org/protobuf/zverif/c41/c41run"
 %s)
 
-func main() { c41run.Main() }
+func main() {
+%s	c41run.Main()
+}
 `
 
 // writeUnit writes the generated packages of one unit (a schema set at one level) into the module at
@@ -435,17 +439,71 @@ func writeUnit(dir string, g *generated, keep map[int]bool) error {
 	return nil
 }
 
-// writeMain writes the main program <dir>/<name>/main.go that links the given packages.
-func writeMain(dir, name string, imports []string) error {
-	var imps strings.Builder
+// builderRef names the generated builder struct of a message: <GoName>_builder in the package of its file.
+type builderRef struct {
+	pkg, goName, full string
+}
+
+// builderRefs lists the builders the generated packages of g declare when compiled with the tags of
+// level (documented naming: <Msg>_builder for every message that is not on the open API; the
+// _protoopaque variant of a hybrid file makes every message of the file opaque).
+func builderRefs(g *generated, level string, keep map[int]bool) ([]builderRef, error) {
+	req, err := gencode.Request(g.files, nil, apiParam(level))
+	if err != nil {
+		return nil, err
+	}
+	gen, err := gencode.Plugin(req)
+	if err != nil {
+		return nil, err
+	}
+	idx := map[string]int{}
+	for i, f := range g.files {
+		idx[f.GetName()] = i
+	}
+	var out []builderRef
+	for _, f := range gen.Files {
+		i, ok := idx[f.Desc.Path()]
+		if !ok || !f.Generate || (keep != nil && !keep[i]) {
+			continue
+		}
+		all := goTags(level) != "" && f.APILevel == gofeaturespb.GoFeatures_API_HYBRID
+		var walk func(ms []*protogen.Message)
+		walk = func(ms []*protogen.Message) {
+			for _, m := range ms {
+				if m.Desc.IsMapEntry() {
+					continue
+				}
+				if all || m.APILevel != gofeaturespb.GoFeatures_API_OPEN {
+					out = append(out, builderRef{pkg: string(f.GoImportPath), goName: m.GoIdent.GoName + "_builder", full: string(m.Desc.FullName())})
+				}
+				walk(m.Messages)
+			}
+		}
+		walk(f.Messages)
+	}
+	return out, nil
+}
+
+// writeMain writes the main program <dir>/<name>/main.go that links the given packages and
+// registers the builders.
+func writeMain(dir, name string, imports []string, builders []builderRef) error {
+	var imps, body strings.Builder
+	alias := map[string]string{}
 	for _, p := range imports {
 		fmt.Fprintf(&imps, "\t_ %q\n", p)
+	}
+	for _, b := range builders {
+		if alias[b.pkg] == "" {
+			alias[b.pkg] = fmt.Sprintf("g%d", len(alias))
+			fmt.Fprintf(&imps, "\t%s %q\n", alias[b.pkg], b.pkg)
+		}
+		fmt.Fprintf(&body, "\tc41run.Builders[%q] = %s.%s{}\n", b.full, alias[b.pkg], b.goName)
 	}
 	mdir := filepath.Join(dir, name)
 	if err := os.MkdirAll(mdir, 0o755); err != nil {
 		return err
 	}
-	return os.WriteFile(filepath.Join(mdir, "main.go"), []byte(fmt.Sprintf(mainSrc, imps.String())), 0o644)
+	return os.WriteFile(filepath.Join(mdir, "main.go"), []byte(fmt.Sprintf(mainSrc, imps.String(), body.String())), 0o644)
 }
 
 var buildErrLine = regexp.MustCompile(`^(?:\./)?((u\d+)/p(\d+)/[^:]+):(\d+:\d+): (.*)$`)
